@@ -30,14 +30,14 @@ CLAIMED = {
  "C12": ("CL1-CL4 CL6 TK3 GL2", "effect inventory with interprocedural entry conditions (greatest fixpoint) + provenance slicing of every removal argument + containment-guard search over go/ssa",
          "every os.Remove/RemoveAll is under Clean==true and HasTask(clean)==false; removed paths derive only from output fields / their Vars and Globs indirections / SpokFile.Dir+cache constant; every output kind reaches the removal; every output of the syntax tree reaches one of the three output fields; glob expansion records every non-hidden match (directories included); a separator-safe test relating each path to SpokFile.Dir with an erroring side precedes any removal",
          "not covered: correctness of the containment predicate for every path string; directories matched by output globs"),
- "C13": ("EN1-EN6", "data-flow chain verification by backward slicing with object flow (templates, buffers) over go/ssa",
-         "os.Environ() precedes the spokfile variables in the list given to expand.ListEnviron (last duplicate wins); the Vars -> KEY=VALUE -> Task.Run -> Runner.Run -> interp.Env chain is unbroken; Task.Commands is text/template output over the AST command text with the variables map; variables are filed under their identifier and builtin errors propagate",
+ "C13": ("EN1-EN6 TK4 PS1", "data-flow chain verification by backward slicing with object flow (templates, buffers) over go/ssa",
+         "os.Environ() precedes the spokfile variables in the list given to expand.ListEnviron (last duplicate wins); the Vars -> KEY=VALUE -> Task.Run -> Runner.Run -> interp.Env chain is unbroken; Task.Commands is text/template output over the AST command text with the variables map; variables are filed under their identifier and builtin errors propagate; one Task.Commands element per command, never re-cut from expanded text; a string literal is its token text minus the quotes; the environment list is not re-ordered",
          "not covered: value semantics of join/exec and of text/template; shell quoting"),
  "C14": ("CP1f CP3f CP10", "edge-dominance of force==false over every skip + force-restricted CFG path search over go/ssa",
          "no 'skipped' store is reachable with force set; on the force==true paths a successful run never leaves a stale digest on disk; the force parameter is fed from Options.Force",
          "not covered: flag parsing inside the CLI library"),
- "C15": ("FM1 FM2 FM3 FM4", "may-be-empty string analysis of every String() return + edge-dominance of the docstring guard + per-iteration path enumeration over go/ssa",
-         "no appended node type can print as the empty string; Tree.Write prints every node once in order; a comment becomes a docstring only when the very next token is the task keyword and never across iterations; Task.String prints it before the keyword; one Append per parse-loop iteration",
+ "C15": ("FM1-FM6", "may-be-empty string analysis of every String() return + edge-dominance of the docstring guard + per-iteration path enumeration over go/ssa",
+         "no appended node type can print as the empty string; Tree.Write prints every node once in order; a comment becomes a docstring only when the very next token is the task keyword and never across iterations; Task.String prints it before the keyword; one Append per parse-loop iteration; a parsed comment is never dropped on a non-failing path; the parser is handed the file as read",
          "not covered: preservation of comment text and order (value-level)"),
  "C17": ("FD1 FD3 FD4 FD5 FD6", "loop exit-test classification by backward slicing (directory-dependent, content-independent, dominates the back edge) over go/ssa",
          "the upward walk has a content-independent exit test on every iteration and one that fires at the root; no negative answer from inside the entries loop; the hit is guarded by Name()==NAME and !IsDir() of the same entry; the stop comparison is on the listed directory after its entries were read; the CLI passes cwd/home",
